@@ -1,6 +1,6 @@
 import MmtkModel.Model.Arith
 import Driver.Util
-namespace Driver.Arith
+namespace Driver.Base.Arith
 open Mmtk.Arith Driver
 
 /-- Configuration shared with the harness (`cfg` lines): build profile and VM constants. -/
@@ -47,4 +47,4 @@ def run (c : Cfg) (args : List String) : String :=
       | "vm_consts", [] => s!"{c.vm.minAlign} {c.vm.maxAlign}"
       | _, _ => "bad-op"
 
-end Driver.Arith
+end Driver.Base.Arith
